@@ -27,7 +27,7 @@ def plan(tier, seed):
     knets = [("k", k) for k, n in K.items() if n.n <= 4]
     u2 = [("idx", 2, i) for i in U2 if c04.sd_size(("idx", 2, i)) >= 2]
     for spec in knets + u2:
-        units.append(("full", [spec], d, tier))
+        units.append(("full", [spec], d if c04.sd_size(spec) <= 3 else 2, tier))
     unis[f"K(n<=4) + {'U2c' if tier == 'quick' else 'U2'}(|SD|>=2): full alphabet depth {d} + query.structural.query"] = len(knets) + len(u2)
     s3 = [("k", k) for k, n in K.items() if 2 <= len(n.sd[0])] + [x for x in u2 if c04.sd_size(x) >= 3]
     for spec in s3:
@@ -42,9 +42,11 @@ def plan(tier, seed):
              [("idx", 3, i) for i in U.shard(U.catalogue("maa"), seed, 512)]
         fd = 1
     else:
-        f3 = [("idx", 3, i) for i in U.shard(U.F3_indices(True), seed, 4)] + [("idx", 3, i) for i in U.catalogue("multi")] + \
-             [("idx", 3, i) for i in U.shard(U.catalogue("maa"), seed, 64)]
-        fd = 2
+        f3 = [("idx", 3, i) for i in U.shard(U.F3_indices(True), seed, 8)] + [("idx", 3, i) for i in U.catalogue("multi")] + \
+             [("idx", 3, i) for i in U.shard(U.catalogue("maa"), seed, 128)]
+        fd = 1
+        for ch in U.chunks([("idx", 3, i) for i in U.shard(U.F3_indices(True), seed, 512)], 2):
+            units.append(("shaped", ch, 2, tier))
     unis[f"F3c/MULTI3/MAA3 shards: stub query then every structural op (depth {fd}+1 shaped)"] = len(f3)
     for ch in U.chunks(f3, 10):
         units.append(("shaped", ch, fd, tier))
@@ -54,7 +56,7 @@ def plan(tier, seed):
         "bounds": {"alphabet": "cand (4 option combos), seeds, sets on any node incl. stubs; succ, skip, bfs, dfs, minimal (both), "
                    "pnet per node; bfs/dfs/aseeds/block(4 combos) with size limit in {None,2}; block exact; scc (both); "
                    "skip_remaining; reclaim; pickle; build; target(node spaces, literals)",
-                   "full": f"all histories up to depth {d}, plus every history query . structural . query (length 3)",
+                   "full": f"all histories up to depth {d} (depth 2 for diagrams with more than 3 nodes), plus every history query . structural . query (length 3)",
                    "shaped": "every [stub query] . [structural op] history, invariants after each step"},
         "rule": "every reached canonical state: for every node, cached seeds / candidates / sets (as returned with compute=False) are "
                 "judged against the reference attractors of the node minus its *current* successors; non-trivial = distinct "
